@@ -183,6 +183,12 @@ func runC19Child(res *hx.Result, rng *hx.Rng, tier string, outdir string) {
 		fmt.Printf("C19ERROR %s: %v\n", what, err)
 		os.Exit(4)
 	}
+	// nothing below may outlive this: a blocked set-up or a blocked request ends the child
+	stage := "set-up"
+	time.AfterFunc(20*time.Second, func() {
+		fmt.Printf("C19HANG the child was still in its %s phase after 20 s\n", stage)
+		os.Exit(3)
+	})
 	dirAddr := "unix://" + filepath.Join(sc.Dir, "d.sock")
 	dsrv, err := directory.NewServer(dirAddr, bus.Yes{})
 	if err != nil {
@@ -270,14 +276,25 @@ func runC19Child(res *hx.Result, rng *hx.Rng, tier string, outdir string) {
 			r.Errs[g] = "call through the proxy: " + err.Error()
 		}
 	}
+	stage = "warm-up"
 	isWarm := map[int]bool{}
 	warmEnd := map[int]bool{}
 	for _, g := range sc.Warm {
 		isWarm[g] = true
-		one(g)
 		warmEnd[sc.Eps[g]] = true
+		if r.Timeout {
+			continue
+		}
+		wd := make(chan struct{})
+		go func(g int) { one(g); close(wd) }(g)
+		select {
+		case <-wd:
+		case <-time.After(8 * time.Second):
+			r.Timeout = true
+		}
 	}
 	// hold phase
+	stage = "concurrent requests"
 	coord.hold()
 	expected := 0
 	var wg, wgHit sync.WaitGroup
@@ -430,6 +447,11 @@ func c19RunChild(sc c19Scenario, workdir string, idx int) c19Obs {
 			o.stderr = line + "\n" + o.stderr
 			return o
 		}
+		if strings.HasPrefix(line, "C19HANG") {
+			o.class = "hang"
+			o.stderr = line
+			return o
+		}
 	}
 	switch {
 	case ctx.Err() != nil:
@@ -515,13 +537,17 @@ func runC19(res *hx.Result, rng *hx.Rng, tier string, outdir string) {
 		defect = true
 	case "ok":
 	default:
-		res.Fail("probe", fmt.Sprintf("the two-goroutine witness scenario ended as %q: %s", po.class, c19Tail(po.stderr, 600)))
+		// the simplest scenario does not even complete: every other one would end the same way
+		res.Fail("probe", fmt.Sprintf("%s: ended as %q: %s", probe, po.class, c19Tail(po.stderr, 600)))
+		res.Switch("runlock_after_lock", false, "not determined: the witness scenario ended as "+po.class)
+		res.Count(probe.String(), true)
+		return
 	}
 	res.Switch("runlock_after_lock", defect, "two goroutines request services behind the same second endpoint of one session (services.Namespace + bus.StandAloneServer on a unix socket), "+
 		"both miss the first pool lookup and dial; the second one to take the write lock finds the client pooled by the first and leaves through s.pollMutex.RUnlock(): "+
 		"the process dies with: "+c19Tail(po.stderr, 160))
 
-	n := 9
+	n := 19
 	if tier == "thorough" {
 		n = 199
 	}
@@ -600,7 +626,15 @@ func runC19(res *hx.Result, rng *hx.Rng, tier string, outdir string) {
 		case "ok":
 			for g := range sc.Eps {
 				if o.res.Errs[g] != "" || !o.res.Works[g] {
-					fail("request-failed", fmt.Sprintf("%s: goroutine %d got no working proxy: %s", desc, g, o.res.Errs[g]))
+					detail := fmt.Sprintf("%s: goroutine %d got no working proxy: %s", desc, g, o.res.Errs[g])
+					if strings.Contains(o.res.Errs[g], net.ErrConsumerBlocked.Error()) {
+						// the server answered the call with its own overflow error: the 10-message queue of the
+						// handler that serves the (shared) connection was full
+						res.FailKnown("request-failed", detail, "consumer_queue_overflow")
+						res.Dist("request refused by the server's full handler queue")
+					} else {
+						fail("request-failed", detail)
+					}
 				}
 			}
 			for e := 0; e < sc.NEnd; e++ {
